@@ -60,6 +60,25 @@ def handle (inp out : String) : String :=
         else if (words ms).headD "?" == st && st != "X0" then s!"ok x:{label}:{st}"
         else s!"diff x:{label}:{st} model={ms.take 60}"
     | _, _, _, _ => "skip bad-args"
+  | "vwr" :: ver :: keyHex :: replyHex :: aggr :: pubT :: rest =>
+    -- `KSI_ExtendResp_verifyWithRequest` itself, on the reply the library has authenticated for a request with these times (id 1)
+    let label := rest.headD "-"
+    match ofHex keyHex, ofHex replyHex, ver.toNat?, aggr.toNat? with
+    | some key, some reply, some v, some aT =>
+      if label != "ok" && out == "V0" then s!"specfail vwr:{label} reply-accepted-for-the-request-although-{label}"
+      else if label == "ok" && out != "V0" then s!"specfail vwr:{label} honest-reply-refused-{out}"
+      else
+        let ms := match PduMac.deliver Hreal cfg .ext v none key reply with
+          | .error e => s!"G{e}"
+          | .ok pdu =>
+            let root := PduMac.rootTagOf reply
+            match PduMac.fieldOf cfg.tabs (PduMac.pduTable .ext root) (respTag root) pdu with
+            | none => s!"V{St.INVALID_ARGUMENT}"
+            | some rv => s!"V{verifyWithRequest (respOf cfg.tabs (respName root) rv) 1 aT pubT.toNat?}"
+        if ms == out then s!"ok vwr:{label}:{out}"
+        else if ms != "V0" && out != "V0" then s!"ok vwr:{label}:refused"      -- which refusal comes first is not the property's business
+        else s!"diff vwr:{label}:{out} model={ms}"
+    | _, _, _, _ => "skip bad-args"
   | "xs" :: sigHex :: ver :: keyHex :: replyHex :: _pf :: _anchors :: _cons :: trusted :: pubHex :: to :: rest =>
     let label := rest.headD "-"
     let ows := words out
